@@ -47,6 +47,50 @@ theorem runhandlers_once (fx : Fix) (s : St) (h : Reach (sys fx) s) :
     · rename_i heq; cases heq; simp [hst]
     · rfl
 
+/-- **a RunHandlers call that returns nil has started every handler added so far**: its last step is only enabled when no
+    registered handler is left unstarted, and then every handler has `Started()` closed, `stopFn`/`stopped` set and exactly
+    one successful Subscribe -/
+theorem runhandlers_nil_means_all_started (s : St) (h : Reach (sys allFixed) s) (s' : St)
+    (ha : act allFixed s .rhEnd = some s') :
+    ∀ y ∈ s'.hs, y.started = true ∧ y.startedCh = true ∧ y.stopSet = true ∧ y.subCalls = 1 := by
+  have hlife := reach_life allFixed s h
+  simp only [act] at ha
+  split at ha
+  · split at ha
+    · rename_i hall
+      simp at ha; subst ha
+      intro y hy
+      have hy' : y ∈ s.hs := hy
+      have hok := hlife.all y hy'
+      have hst : y.started = true := by
+        have := (List.all_eq_true.mp hall) y hy'
+        simp at this
+        rcases this with h1 | h1
+        · exact h1
+        · have hd := hok.l6.2.mp h1
+          exact (hok.l5 (by rw [hd]; simp)).1
+      have hch := hok.l12 hst
+      have h3 := hok.l3
+      simp [hok.l11 hst] at h3
+      exact ⟨hst, hch, hok.l2 rfl hch, h3⟩
+    · simp at ha
+  · simp at ha
+
+/-- **a failed start is retried**: when a decorator or Subscribe fails, RunHandlers returns the error having touched nothing
+    of that handler – it is still not started, so the Subscribe step of the next RunHandlers call is enabled for it -/
+theorem runhandlers_error_is_retried (fx : Fix) (s s' : St) (i : Nat) (ha : act fx s (.rhSubFail i) = some s') :
+    s'.hs = s.hs ∧ s'.hl = .free ∧
+    ∃ y, s'.hs[i]? = some y ∧ y.started = false ∧ ∀ v, (act fx { s' with hl := .rh v none } (.rhSub i)).isSome = true := by
+  simp only [act] at ha
+  split at ha
+  · rename_i v y hhl hy
+    split at ha
+    · rename_i hg
+      simp at ha; subst ha
+      exact ⟨rfl, rfl, y, hy, hg.1, by intro v'; simp [act, hy, hg]⟩
+    · simp at ha
+  · simp at ha
+
 /-- **Once Started() is closed, Stop() and Stopped() are usable**: `startedCh` closed implies the `started` flag, `stopFn`
     and `stopped` are set (fix D7); Stop is then enabled and does not panic; nothing ever panics; and `stopped` is
     closed exactly when the handler's goroutine has finished -/
